@@ -2,6 +2,7 @@
 //! rebuilt from the working tree) and writes the op/answer streams the Lean model driver replays.
 mod c01;
 mod c04;
+mod c08;
 mod cpdec;
 mod c12;
 mod c13;
@@ -59,6 +60,7 @@ fn main() {
         "c13" => c13::run(&mut ctx),
         "c01" => c01::run(&mut ctx),
         "c04" => c04::run(&mut ctx),
+        "c08" => c08::run(&mut ctx),
         "c12" => c12::run(&mut ctx),
         _ => {
             eprintln!("unknown property {prop}");
